@@ -2,7 +2,9 @@
 import asyncio
 import itertools
 
+from ..core import lean
 from ..core.common import Outcome, rng_for, fingerprint
+from ..core.par import run_chunks, mark
 from ..core.vtime import vrun, TICK, ticks
 
 ID = 'C20'
@@ -153,6 +155,7 @@ def evaluate(ctx, cases, out):
         n = len(case['aws'])
         for which in ('gather', 'raise_first'):
             out.evaluations += 1
+            mark(dict(case, which=which))
             try:
                 res, done, info = run_impl(case, which)
             except BaseException as e:  # noqa
@@ -191,12 +194,21 @@ def evaluate(ctx, cases, out):
             out.sample({'case': case, 'model': ans})
 
 
-def run(ctx):
+class _Ctx:
+    pass
+
+
+def _chunk(payload):
+    quick, seed, part, nparts = payload
+    ctx = _Ctx()
+    ctx.quick, ctx.seed, ctx.driver = quick, seed, lean.Driver()
     out = Outcome()
     batch = []
-    for case in gen_cases(ctx):
+    for i, case in enumerate(gen_cases(ctx)):
+        if i % nparts != part:
+            continue
         batch.append(case)
-        if len(batch) >= 2000:
+        if len(batch) >= 1000:
             evaluate(ctx, batch, out)
             batch = []
             if len(out.concrete) + len(out.diffs) > 50:
@@ -204,6 +216,12 @@ def run(ctx):
     if batch:
         evaluate(ctx, batch, out)
     return out
+
+
+def run(ctx):
+    nparts = 4 if ctx.quick else ctx.workers
+    return run_chunks(_chunk, [(ctx.quick, ctx.seed, k, nparts) for k in range(nparts)], nparts,
+                      limit_s=180 if ctx.quick else 1500)
 
 
 def search(ctx, outcome):
